@@ -566,7 +566,8 @@ namespace fastscapelib
                         opp_node = m_link_basins[parsed_edge_id][1];
 
                     if (opp_node != nid && m_adjacency[opp_node].size > 0
-                        && m_edges[parsed_edge_id].pass_elevation < found_edge_weight)
+                        && (found_edge == init_idx
+                            || m_edges[parsed_edge_id].pass_elevation < found_edge_weight))
                     {
                         found_edge = parsed_edge_id;
                         found_edge_weight = m_edges[parsed_edge_id].pass_elevation;
